@@ -204,3 +204,32 @@ Definition known_classes (sw : switches) (dt : detection) : list N :=
   (if known_d21 sw dt then [21%N] else []).
 
 End Known.
+
+(* ---- classes of properties C06 / C08 (quantifiers over lists) ---- *)
+(* D10 / D11 (solver.rs:603, :626-646): a quantified key whose list, after batching, is a
+   group of two or more elements one of which is a multi-needle automaton or a regex set:
+   the quantifier counts batches, not members *)
+Definition d10_here (_ : bool) (x : expr) : bool :=
+  match x with
+  | EMatch _ (EGroup _ g) => (1 <? length g)%nat && existsb is_listlike g
+  | _ => false
+  end.
+Definition known_d10 (dt : detection) : bool :=
+  exists_sub d10_here false (d_expr dt) || existsb (fun kv => exists_sub d10_here false (snd kv)) (d_ids dt).
+
+(* D24 (parser.rs:1604 + solver.rs:596): all(X) / of(X, n) over an identifier that is a
+   mapping with ONE entry whose value is a list: the body is the list's or-group, so the
+   quantifier counts the list's batches instead of the single entry *)
+From TauModel Require Import Yaml.
+Definition single_entry_list (y : yaml) : bool :=
+  match y with
+  | YMap [(_, YSeq (_ :: _ :: _))] => true
+  | _ => false
+  end.
+Definition d24_here (raw : list (str * yaml)) (_ : bool) (x : expr) : bool :=
+  match x with
+  | EMatch _ (EIdent i) => match lookup i raw with Some y => single_entry_list y | None => false end
+  | _ => false
+  end.
+Definition known_d24 (raw : list (str * yaml)) (dt : detection) : bool :=
+  exists_sub (d24_here raw) false (d_expr dt).
